@@ -217,6 +217,10 @@ fn main() {
 		}
 	}
 
+	out.raw("crash reset");
+	for r in &kit.blks {
+		out.raw(&kit.blk_line(r.id).replacen("chain blk", "crash blk", 1));
+	}
 	let mut total_points = 0u64;
 	let mut total_fail = 0u64;
 	for sc in &scenarios {
